@@ -1,6 +1,7 @@
 package vrt
 
 import (
+	"time"
 	"fmt"
 	"reflect"
 )
@@ -154,7 +155,7 @@ func S(ch any) SelCase { return SelCase{true, chanValue(ch)} }
 func Select(site string, hasDefault bool, cases ...SelCase) int {
 	e := E
 	if e == nil {
-		panic("vrt.Select outside a controlled execution is not supported")
+		return nativeSelect(hasDefault, cases)
 	}
 	o := &op{kind: opSelect, site: site, what: "select", hasDefault: hasDefault}
 	for _, c := range cases {
@@ -187,4 +188,41 @@ func Select(site string, hasDefault bool, cases ...SelCase) int {
 		e.trace = append(e.trace, TraceEvent{T: e.cur.ID, Site: site, What: fmt.Sprintf("select->%d", i), Now: e.now})
 	}
 	return i
+}
+
+// nativeSelect serves the environment models when they run outside a controlled execution (the
+// conformance replay against the real ATP stack): it polls until a case can proceed without
+// consuming anything, so that the caller's native operation then succeeds. Only the channel
+// shapes the models use are supported: buffered channels, and unbuffered channels that are only
+// ever closed.
+func nativeSelect(hasDefault bool, cases []SelCase) int {
+	for {
+		for i, c := range cases {
+			if !c.ch.IsValid() || c.ch.IsNil() {
+				continue
+			}
+			if c.send {
+				if c.ch.Len() < c.ch.Cap() {
+					return i
+				}
+				continue
+			}
+			if c.ch.Cap() > 0 {
+				if c.ch.Len() > 0 {
+					return i
+				}
+				continue
+			}
+			if x, ok := c.ch.TryRecv(); x.IsValid() {
+				if ok {
+					panic("vrt.nativeSelect: value received from an unbuffered channel")
+				}
+				return i // closed
+			}
+		}
+		if hasDefault {
+			return -1
+		}
+		time.Sleep(200 * time.Microsecond)
+	}
 }
